@@ -238,36 +238,100 @@ class Body:
                 succ[i] = [t['target']] if t['target'] is not None else []
             else:
                 succ[i] = []
-        # Jump threading for compiler-made boolean temporaries (`matches!`, `&&`, `||`):
-        #   X: ...; L = const k; goto Y        Y: (no statements) switch L -> [..]
-        # The edge X->Y can only continue to Y's target for k; replacing it removes infeasible
-        # paths only, so every must-pass / dominance answer stays sound and becomes exact for
-        # these diamonds.
-        for y, by in enumerate(self.blocks):
-            if by['cleanup'] or by['stmts'] or by['term']['k'] != 'switch':
-                continue
-            d = by['term']['discr']
-            if d['k'] not in ('copy', 'move') or d['place']['p']:
-                continue
-            L = d['place']['l']
-            for x, bx in enumerate(self.blocks):
-                if bx['cleanup'] or bx['term']['k'] != 'goto' or bx['term']['target'] != y:
+        # Jump threading for boolean/constant temporaries (`matches!`, `&&`, `||`, and the result
+        # of a spliced helper function):
+        #   X: ...; L = const k; goto I1     I1..In: only assignments to temporaries; goto
+        #   Y: (assignments to temporaries) switch M   with M's value known to be a constant
+        # All executions leaving X continue at Y's target for that constant, so X is redirected
+        # there. This removes infeasible paths only. Blocks that assign user variables or contain
+        # calls are never skipped.
+        user = set()
+        for d in self.j.get('debug', []):
+            if not d['place']['p']:
+                user.add(d['place']['l'])
+
+        def step_env(env, stmts, allow_user):
+            for st in stmts:
+                if st['k'] != 'assign':
+                    return None
+                lhs = st['lhs']
+                if lhs['p']:
                     continue
-                k = None
-                for st in bx['stmts']:
-                    if st['k'] == 'assign' and st['lhs']['l'] == L and not st['lhs']['p']:
-                        rv = st['rv']
-                        if rv['k'] == 'use' and rv['op']['k'] == 'const' and 'val' in rv['op']:
-                            k = rv['op']['val']
-                        else:
-                            k = None
-                if k is None:
+                if lhs['l'] in user and not allow_user:
+                    return None
+                rv = st['rv']
+                if rv['k'] == 'use' and rv['op']['k'] == 'const' and 'val' in rv['op']:
+                    env[lhs['l']] = rv['op']['val']
+                elif rv['k'] == 'use' and rv['op']['k'] in ('copy', 'move') and not rv['op']['place']['p'] \
+                        and rv['op']['place']['l'] in env:
+                    env[lhs['l']] = env[rv['op']['place']['l']]
+                else:
+                    env.pop(lhs['l'], None)
+            return env
+        for x, bx in enumerate(self.blocks):
+            if bx['cleanup'] or bx['term']['k'] != 'goto':
+                continue
+            env = step_env({}, bx['stmts'], True)
+            if not env:
+                continue
+            cur = bx['term']['target']
+
+            def merge_of(bc_):
+                """for a (drop-flag style) re-test whose arms re-join at once: the join block"""
+                ts = []
+                for _, tb in bc_['term']['targets']:
+                    if tb not in ts:
+                        ts.append(tb)
+                if bc_['term']['otherwise'] not in ts:
+                    ts.append(bc_['term']['otherwise'])
+                ts = [t_ for t_ in ts if self.blocks[t_]['term']['k'] != 'unreachable']
+                for cand in ts:
+                    ok_all = True
+                    for o in ts:
+                        if o == cand:
+                            continue
+                        bo = self.blocks[o]
+                        if bo['cleanup'] or bo['stmts'] or bo['term']['k'] not in ('goto', 'drop') or \
+                                bo['term']['target'] != cand:
+                            ok_all = False
+                    if ok_all:
+                        return cand
+                return None
+            for _ in range(8):
+                bc = self.blocks[cur]
+                if bc['cleanup']:
+                    break
+                k = bc['term']['k']
+                if k in ('goto', 'drop'):
+                    env = step_env(env, bc['stmts'], False)
+                    if env is None or not env:
+                        break
+                    cur = bc['term']['target']
                     continue
-                tgt = by['term']['otherwise']
-                for val, tb in by['term']['targets']:
-                    if val == k:
-                        tgt = tb
-                succ[x] = [tgt]
+                if k == 'switch':
+                    d0 = bc['term']['discr']
+                    if not (d0['k'] in ('copy', 'move') and not d0['place']['p'] and d0['place']['l'] in
+                            (step_env(dict(env), bc['stmts'], False) or {})):
+                        mg = merge_of(bc)
+                        e2 = step_env(env, bc['stmts'], False)
+                        if mg is not None and e2:
+                            env = e2
+                            cur = mg
+                            continue
+                        break
+                    env = step_env(env, bc['stmts'], False)
+                    if env is None:
+                        break
+                    d = bc['term']['discr']
+                    if d['k'] in ('copy', 'move') and not d['place']['p'] and d['place']['l'] in env:
+                        kv = env[d['place']['l']]
+                        tgt = bc['term']['otherwise']
+                        for val, tb in bc['term']['targets']:
+                            if val == kv:
+                                tgt = tb
+                        succ[x] = [tgt]
+                    break
+                break
         pred = [[] for _ in range(self.n)]
         for i, ss in enumerate(succ):
             for s_ in ss:
@@ -865,9 +929,35 @@ class Facts:
         raw = dict((b['path'], b) for b in self.j['bodies'])
         unknown = set()
         kf = os.path.join(os.path.dirname(os.path.abspath(__file__)), 'known_functions.json')
+        self.renamed = {}
         if os.path.exists(kf):
-            known = set(json.load(open(kf)))
+            kj = json.load(open(kf))
+            known = set(kj)
             unknown = set(p for p, b in raw.items() if b['kind'] != 'Closure' and p not in known)
+            # a function that merely changed its name is not a new helper: match unknown functions
+            # against known ones that disappeared (same enclosing item, same arity, same callees)
+            missing = [k for k in known if k not in raw]
+            if isinstance(kj, dict) and missing and unknown:
+                def parent(p_):
+                    return p_.rsplit('::', 1)[0]
+                for u in sorted(unknown):
+                    bu = raw[u]
+                    cu = set(bl['term'].get('callee', '') for bl in bu['blocks']
+                             if bl['term']['k'] == 'call' and not bl['cleanup'])
+                    best = None
+                    for k in missing:
+                        if parent(k) != parent(u) or kj[k][0] != bu['arg_count']:
+                            continue
+                        ck = set(kj[k][1])
+                        # callee names may themselves have been renamed: compare ignoring local unknowns
+                        inter = len(cu & ck)
+                        union = len(cu | ck) or 1
+                        score = inter / union
+                        if score >= 0.7 and (best is None or score > best[0]):
+                            best = (score, k)
+                    if best:
+                        self.renamed[u] = best[1]
+                unknown -= set(self.renamed)
         self.unknown_functions = unknown
         self.inlined = {}
         for b in self.j['bodies']:
@@ -895,6 +985,27 @@ class Facts:
             raise AnchorMissing('expected exactly one function matching /%s/ (%s), found %d' %
                                 (regex, what or 'anchor', len(bs)))
         return bs[0]
+
+    def resolve(self, regex, predicate, what, scope=None):
+        """Find a function by its path; when it was renamed, fall back to its role: the unique
+        non-closure function (inside `scope`, a path prefix) satisfying `predicate`."""
+        bs = self.find_bodies(regex)
+        bs = [b for b in bs if b.kind != 'Closure']
+        if len(bs) == 1:
+            return bs[0]
+        cands = [b for b in self.bodies.values() if b.kind != 'Closure' and
+                 (scope is None or b.path.startswith(scope) or b.path.startswith('<' + scope))]
+        hits = []
+        for b in cands:
+            try:
+                if predicate(b):
+                    hits.append(b)
+            except Exception:
+                pass
+        if len(hits) == 1:
+            return hits[0]
+        raise AnchorMissing('%s: not found by name /%s/ (%d) nor uniquely by role (%d candidates)' %
+                            (what, regex, len(bs), len(hits)))
 
     def closures_of(self, body):
         return [b for b in self.bodies.values() if b.kind == 'Closure' and b.j['parent'] == body.path]
